@@ -35,6 +35,7 @@ type mxWorld struct {
 	candNode []int // funded, not staked
 	candApp  []int
 	freshN   int
+	focus    string // "" (whole matrix) | "edit" | "apps"
 }
 
 func newMxWorld(r *rand.Rand) *mxWorld {
@@ -130,7 +131,14 @@ type mxCaseSpec struct {
 func (w *mxWorld) genMxCase(r *rand.Rand) mxCaseSpec {
 	url := func() string { return fmt.Sprintf("https://m%d.example:443", r.Intn(1000)) }
 	chains := func() []string { return [][]string{{"0001"}, {"0021"}, {"0001", "0021"}}[r.Intn(3)] }
-	switch r.Intn(13) {
+	pick := r.Intn(13)
+	switch w.focus {
+	case "edit":
+		pick = []int{2, 3, 2, 3, 2, 4, 6, 1}[r.Intn(8)]
+	case "apps":
+		pick = []int{6, 6, 6, 7, 8, 8, 6, 9}[r.Intn(8)]
+	}
+	switch pick {
 	case 0: // send
 		from := chain.KeyAcct0 + r.Intn(7)
 		to := chain.KeyAcct0 + r.Intn(7)
@@ -169,6 +177,14 @@ func (w *mxWorld) genMxCase(r *rand.Rand) mxCaseSpec {
 			out = chain.Addr(t.out)
 		}
 		stake := int64(30_000_000_000 + 15_000_000_000*int64(r.Intn(3)) + r.Int63n(1000))
+		switch r.Intn(6) {
+		case 0:
+			stake = 15_000_000_000 // at or below every genesis stake: "lower"
+		case 1:
+			stake = 15_100_000_000 + 1_000_000_000*int64(r.Intn(7)) // around the genesis stakes: lower / equal / same bin
+		case 2:
+			stake = 61_000_000_000 + r.Int63n(5_000_000_000) // above the weighting ceiling
+		}
 		var dg map[string]uint32
 		if r.Intn(3) == 0 {
 			dg = map[string]uint32{chain.AddrHex(chain.KeyDeleg0 + r.Intn(4)): uint32(1 + r.Intn(40)), chain.AddrHex(chain.KeyDeleg0 + 4 + r.Intn(4)): uint32(1 + r.Intn(40))}
@@ -297,8 +313,16 @@ func (w *mxWorld) genMxCase(r *rand.Rand) mxCaseSpec {
 
 // buildMxPlan generates a plan of n cases. hostileSig / hostileFee are probabilities in percent.
 func buildMxPlan(r *rand.Rand, n, hostileSig, hostileFee int) (*txPlan, *mxWorld) {
+	return buildMxPlanFocus(r, n, hostileSig, hostileFee, "", nil)
+}
+
+// buildMxPlanFocus: focus narrows the message mix; featureAt delays feature activations (transition profile).
+func buildMxPlanFocus(r *rand.Rand, n, hostileSig, hostileFee int, focus string, featureAt map[string]int64) (*txPlan, *mxWorld) {
 	w := newMxWorld(r)
-	p := newTxPlan(w.g)
+	w.focus = focus
+	p := &txPlan{B: chain.NewBuilder(w.g)}
+	p.B.FeatureAt = featureAt
+	p.B.Bootstrap()
 	for len(p.Cases) < n {
 		p.B.Begin(int64(30 + r.Intn(90)))
 		for j, m := 0, 1+r.Intn(4); j < m && len(p.Cases) < n; j++ {
